@@ -2143,6 +2143,10 @@ func (fx *FuncExec) afterStore(st *State, x *ssa.Store) {
 		if ss.Callee == name && (ss.Ordinal == fx.storeOrd[x] || ss.Ordinal == -1) {
 			env := fx.specEnv(st, fx.entry)
 			fx.withLoop(env, st)
+			if fa, ok := x.Addr.(*ssa.FieldAddr); ok {
+				// arg0 = the struct written to, arg1 = the value stored
+				env.callArgs = []Val{fx.val(st, fa.X), fx.val(st, x.Val)}
+			}
 			for _, a := range ss.Asserts {
 				fx.obligeClause("assert@store", st, env, a, fmt.Sprintf("after store %s#%d: %s", name, ss.Ordinal, a.Text), x.Pos())
 			}
